@@ -28,17 +28,11 @@ pub(crate) mod cut {
     static mut G: Ghost = Ghost { magic: [0xC06_C07E_0000_0001, 0x9E37_79B9_7F4A_7C15], calls: 0, slots: [0; 4], tags: [0; 4] };
     /// how often the slot state of `slot` was told that the parent of block `tag` is certified
     pub(crate) fn told(slot: u64, tag: u8) -> usize {
-        let mut n = 0;
-        let mut i = 0;
+        // (no loop: the harnesses run with a small unwind bound)
         unsafe {
-            while i < 4 {
-                if i < G.calls && G.slots[i] == slot && G.tags[i] == tag {
-                    n += 1;
-                }
-                i += 1;
-            }
+            let hit = |i: usize| (i < G.calls && G.slots[i] == slot && G.tags[i] == tag) as usize;
+            hit(0) + hit(1) + hit(2) + hit(3)
         }
-        n
     }
     pub(crate) fn calls() -> usize {
         unsafe { G.calls }
